@@ -35,6 +35,8 @@ def case_class(c):
         return '%s,nillable=%s,min=%s,%s%s' % (c['ty'], c['nillable'], c['mino'], c['how'], ',default' if c.get('dflt') else '')
     if g == 'date':
         return '%s|delta=%s|off=%s' % (c['facet'], c['delta'], c['off'])
+    if g == 'subname':
+        return c['how']
     if g == 'inh':
         return 'omit=%s' % c['omit']
     if g == 'time':
